@@ -357,6 +357,102 @@ func runC11(c *Ctx) {
 		}
 	}()
 
+	// ---- C11.periodic
+	rule = "C11.periodic"
+	c.R.Rule(rule, "the health check keeps running for the life of the pool: the function that calls it does so from a loop around a select that receives from a periodic source - the channel of a time.Ticker (or a time.After evaluated in the select itself); when the source is a one-shot time.Timer, every path from the select back to the select passes a Reset of that timer - a path that skips the re-arm (an early `continue`) makes that tick the last one, after which neither idle time nor lifetime nor MinConns is enforced")
+	func() {
+		var hc *ssa.Function
+		for _, fn := range p.Funcs() {
+			if fn.Pkg != nil && fn.Pkg.Pkg.Path() == core.PkgPool && len(core.FindCalls(fn, func(f *types.Func) bool { return core.IsMethod(f, pkgPuddle, "Pool", "AcquireAllIdle") })) > 0 {
+				hc = fn
+			}
+		}
+		if hc == nil {
+			return // reported by C11.health
+		}
+		var drv *ssa.Function
+		var sel *ssa.Select
+		for _, fn := range p.Funcs() {
+			if fn.Pkg == nil || fn.Pkg.Pkg.Path() != core.PkgPool || fn.Blocks == nil {
+				continue
+			}
+			calls := false
+			for _, cc := range core.Calls(fn) {
+				if core.StaticFn(cc) == hc {
+					calls = true
+				}
+			}
+			if !calls {
+				continue
+			}
+			for _, b := range fn.Blocks {
+				for _, in := range b.Instrs {
+					if sx, ok := in.(*ssa.Select); ok && loopHeaderOf(b) != nil {
+						drv, sel = fn, sx
+					}
+				}
+			}
+		}
+		if drv == nil {
+			c.R.Bad(rule, core.FuncName(hc), cfg, p.Pos(hc.Pos()), "the health check is not driven from a loop around a select: it does not run periodically")
+			return
+		}
+		key := core.FuncName(drv)
+		timeField := func(v ssa.Value) (string, ssa.Value) {
+			u, ok := v.(*ssa.UnOp)
+			if !ok || u.Op != token.MUL {
+				return "", nil
+			}
+			fa, ok := u.X.(*ssa.FieldAddr)
+			if !ok {
+				return "", nil
+			}
+			for _, tn := range []string{"Ticker", "Timer"} {
+				if core.IsNamed(fa.X.Type(), "time", tn) {
+					return tn, fa.X
+				}
+			}
+			return "", nil
+		}
+		kind, n := "", 0
+		var timer ssa.Value
+		for _, st := range sel.States {
+			if st.Dir != types.RecvOnly {
+				continue
+			}
+			if tn, tv := timeField(st.Chan); tn != "" {
+				kind, timer = tn, tv
+				n++
+			} else if cl, ok := st.Chan.(*ssa.Call); ok {
+				if f := core.CalleeFunc(cl); f != nil && core.IsFunc(f, "time", "After") {
+					kind = "After"
+					n++
+				}
+			}
+		}
+		switch {
+		case n == 0:
+			c.R.Bad(rule, key, cfg, p.Pos(sel.Pos()), "the loop that drives the health check receives from no ticker or timer")
+		case kind == "Ticker" || kind == "After":
+			c.R.Ok(rule, key, cfg, p.Pos(sel.Pos()), "driven by time."+kind+" in a select loop")
+		default:
+			isReset := func(in ssa.Instruction) bool {
+				cl, ok := in.(*ssa.Call)
+				if !ok {
+					return false
+				}
+				f := core.CalleeFunc(cl)
+				return f != nil && core.IsMethod(f, "time", "Timer", "Reset") && len(cl.Call.Args) > 0 && cl.Call.Args[0] == timer
+			}
+			w := core.ReachAvoiding(core.Point{B: sel.Block(), I: indexIn(sel)}, func(in ssa.Instruction) bool { return in == ssa.Instruction(sel) }, isReset, nil)
+			if len(w) > 0 {
+				c.R.Bad(rule, key, cfg, p.Pos(sel.Pos()), "the one-shot timer that drives the health check is not re-armed on some path back to the select: after that iteration the health check never runs again", p.TrailString(w[0])...)
+			} else {
+				c.R.Ok(rule, key, cfg, p.Pos(sel.Pos()), "timer re-armed on every path back to the select")
+			}
+		}
+	}()
+
 	// ---- C11.factory
 	rule = "C11.factory"
 	c.R.Rule(rule, "connections are dialled only inside the puddle Constructor, MaxSize comes from Options.MaxConns, the Destructor closes the ch.Client, and Pool.Close reaches puddle's Close")
@@ -585,4 +681,13 @@ func ruleSlab(c *Ctx, p *core.Program, rule string) {
 		}
 	}()
 
+}
+
+func indexIn(in ssa.Instruction) int {
+	for i, x := range in.Block().Instrs {
+		if x == in {
+			return i
+		}
+	}
+	return -1
 }
